@@ -635,4 +635,9 @@ func emitHuman(cf *vh.CasesFile, res *vh.Result, caseNo *int, stream, src string
 	cf.Terms = append(cf.Terms, fmt.Sprintf("CHuman %s %s %s %s", vh.BytesTerm(src), zlit(ctx), diagsTerm(ds), listTerm(obs)))
 	res.Cases = append(res.Cases, vh.CaseRec{Case: *caseNo, Stream: stream, Input: inS, Impl: strings.Join(obs, " ")})
 	*caseNo++
+	// the whole rendered text, byte for byte (model: BclErrposText.human_text_bytes)
+	res.Count("human_text")
+	cf.Terms = append(cf.Terms, fmt.Sprintf("CHumanText %s %s %s %s", vh.BytesTerm(src), zlit(ctx), diagsTerm(ds), vh.BytesTerm(hg.Val)))
+	res.Cases = append(res.Cases, vh.CaseRec{Case: *caseNo, Stream: stream, Input: inS, Impl: hg.Val})
+	*caseNo++
 }
